@@ -1222,3 +1222,132 @@ Proof.
   split; [unfold has_row, amem in *; rewrite <- Hget; exact Hrow|].
   split; [exact Ra|]. split; [lia|]. unfold bal. lia.
 Qed.
+
+(* ------------------------------------------------------------------------------------------ *)
+(* the gatekeeper's height and the configuration along a step *)
+
+Lemma refund_loop_height : forall us t t', refund_loop t us = Ok tt t' -> gk_height t' = gk_height t.
+Proof.
+  induction us as [|uuid us IH]; intros t t'; cbn [refund_loop]; [intros H; inversion H; reflexivity|].
+  destruct (find_app (db_apps t) uuid) as [a|]; [|discriminate].
+  destruct (gk_get t (a_user a)) as [ui|]; [|discriminate].
+  destruct (u32_add (u_slots ui) (slots_of (b_len (a_blob a)))) as [s|]; [|discriminate].
+  intros H. apply IH in H. exact H.
+Qed.
+
+Lemma delete_height t us r t' : gk_delete_appointments t us r = Ok tt t' -> gk_height t' = gk_height t.
+Proof.
+  unfold gk_delete_appointments. destruct r.
+  - destruct (refund_loop t us) as [[] t1|] eqn:E; cbn [bind]; [|discriminate].
+    apply refund_loop_height in E. intros H; inversion H; subst. exact E.
+  - intros H; inversion H; reflexivity.
+Qed.
+
+Lemma r_block_height le sc t2 b h t3 : r_block_connected le sc t2 b h = Ok tt t3 -> gk_height t3 = gk_height t2.
+Proof.
+  unfold r_block_connected.
+  destruct (ti_update (r_index (set_car_height t2 h)) b) as [idx|]; [|discriminate].
+  destruct (check_conf_loop le _ h _ _ []) as [completed tc|] eqn:Ec; cbn [bind]; [|discriminate].
+  apply check_conf_spec in Ec. destruct Ec as [Hc _]. apply ua_height in Hc.
+  change (gk_height (set_r_index (set_car_height t2 h) idx)) with (gk_height t2) in Hc.
+  destruct (match completed with [] => Ok tt tc | _ => gk_delete_appointments tc completed true end) as [[] td|] eqn:Ed;
+    cbn [bind]; [|discriminate].
+  assert (Hd : gk_height td = gk_height tc).
+  { destruct completed; [inversion Ed; reflexivity|apply delete_height in Ed; exact Ed]. }
+  destruct (match reorged td with [] => Ok [] td | _ :: _ => reorged_loop sc h (reorged td) (set_reorged td []) [] end)
+    as [rej1 t4|] eqn:Er.
+  2:{ destruct (reorged td); [discriminate|]. rewrite Er. cbn [bind]. discriminate. }
+  assert (H4 : gk_height t4 = gk_height td).
+  { destruct (reorged td); [inversion Er; reflexivity|]. apply reorged_loop_ua in Er. apply ua_height in Er. exact Er. }
+  assert (Hb : (match reorged td with [] => Ok [] td | x :: l => reorged_loop sc h (x :: l) (set_reorged td []) [] end) = Ok rej1 t4).
+  { destruct (reorged td); exact Er. }
+  rewrite Hb. cbn [bind]. clear Hb Er.
+  destruct (u32_sub h (Z.to_N Consts.CONFIRMATIONS_BEFORE_RETRY)) as [lim|]; [|discriminate].
+  destruct (stale_loop sc h _ t4 []) as [rej2 t5|] eqn:Es; cbn [bind]; [|discriminate].
+  apply stale_loop_ua in Es. apply ua_height in Es.
+  destruct (match rej1 ++ rej2 with [] => Ok tt t5 | l => gk_delete_appointments t5 l false end) as [[] t6|] eqn:E6;
+    cbn [bind]; [|discriminate].
+  assert (H6 : gk_height t6 = gk_height t5).
+  { destruct (rej1 ++ rej2); [inversion E6; reflexivity|apply delete_height in E6; exact E6]. }
+  intros H; inversion H; subst t3. cbn [gk_height set_car_memo]. congruence.
+Qed.
+
+Lemma gk_block_height t0 h t1 : gk_block_connected t0 h = Ok tt t1 -> gk_height t1 = h.
+Proof.
+  unfold gk_block_connected. destruct (outdated_users _ _ _); [|discriminate]. intros H; inversion H; reflexivity.
+Qed.
+
+Lemma connect_height le t hash txs sc t' :
+  step le t (OConnect hash txs) sc = (t', OBlockRes) -> gk_height t' = gk_height t + 1.
+Proof.
+  intros Hstep. destruct (connect_phases le t hash txs sc t' Hstep) as [t1 [t2 [E1 [E2 E3]]]].
+  apply gk_block_height in E1. apply r_block_height in E3. apply w_block_spec in E2.
+  destruct E2 as [tb [invalid [HB [_ [_ [_ [_ [_ [_ Hh]]]]]]]]].
+  pose proof (ua_height _ _ (bl_ua _ _ _ HB)) as Hb. congruence.
+Qed.
+
+Lemma register_height le t u sc t' x : step le t (ORegister u) sc = (t', x) -> gk_height t' = gk_height t.
+Proof.
+  cbn [step wrap]. unfold gk_add_update_user.
+  destruct (gk_get (set_rpc_log t []) u) as [ui|].
+  - destruct (u32_add (u_slots ui) (c_slots (cfg (set_rpc_log t [])))); cbn [wrap]; intros H; inversion H; reflexivity.
+  - destruct (u32_add (gk_height (set_rpc_log t [])) (c_duration (cfg (set_rpc_log t [])))); [|cbn [wrap]; intros H; inversion H; reflexivity].
+    destruct (amem (db_users (set_rpc_log t [])) u); cbn [wrap]; intros H; inversion H; reflexivity.
+Qed.
+
+Lemma store_height t a t2 : w_store_appointment t a = Ok tt t2 -> gk_height t2 = gk_height t.
+Proof.
+  unfold w_store_appointment. destruct (find_app (db_apps t) (app_uuid a)); [intros H; inversion H; reflexivity|].
+  destruct (amem (db_users t) (a_user a)); intros H; inversion H; reflexivity.
+Qed.
+
+Lemma triggered_height sc t a d t2 : w_store_triggered sc t a d = Ok tt t2 -> gk_height t2 = gk_height t.
+Proof.
+  unfold w_store_triggered. destruct (decrypt (a_blob a) d) as [p|].
+  - destruct (w_store_appointment t a) as [[] t1|] eqn:E1; cbn [bind]; [|discriminate]. apply store_height in E1.
+    destruct (r_handle_breach sc t1 (app_uuid a) d p) as [s t3|] eqn:E2; cbn [bind]; [|discriminate].
+    apply handle_breach_ua in E2. apply ua_height in E2.
+    destruct (status_rejected s); intros H; [apply delete_height in H|inversion H; subst]; congruence.
+  - destruct (find_app (db_apps t) (app_uuid a)); intros H; [apply delete_height in H; exact H|inversion H; reflexivity].
+Qed.
+
+Lemma add_height le t signer loc b delay sig sc t' r :
+  step le t (OAdd signer loc b delay sig) sc = (t', OAddRes r) -> gk_height t' = gk_height t.
+Proof.
+  cbn [step wrap]. unfold w_add_appointment. change (set_rpc_log t []) with (fresh t).
+  destruct (authenticate (fresh t) signer) as [u|]; [|cbn; intros H; inversion H; reflexivity].
+  destruct (gk_get (fresh t) u) as [ui|] eqn:Eg; [|cbn; intros H; inversion H].
+  destruct (N.leb (u_expiry ui) (gk_height (fresh t))); [cbn; intros H; inversion H; reflexivity|].
+  destruct (find_trk (db_trks (fresh t)) (loc, u)); [cbn; intros H; inversion H; reflexivity|].
+  unfold gk_add_update_appointment. rewrite Eg.
+  match goal with |- context [if ?c then _ else _] => destruct c end; cbn [bind]; [|cbn; intros H; inversion H; reflexivity].
+  match goal with |- context [ti_get ?c loc] => destruct (ti_get c loc) as [d|] end.
+  - match goal with |- context [w_store_triggered sc ?t1 ?a d] => destruct (w_store_triggered sc t1 a d) as [[] t2|] eqn:E2 end;
+      cbn [bind wrap]; intros H; inversion H; subst. apply triggered_height in E2. exact E2.
+  - match goal with |- context [w_store_appointment ?t1 ?a] => destruct (w_store_appointment t1 a) as [[] t2|] eqn:E2 end;
+      cbn [bind wrap]; intros H; inversion H; subst. apply store_height in E2. exact E2.
+Qed.
+
+Lemma disconnect_height le t sc t' :
+  last_hash t <> None -> step le t ODisconnect sc = (t', OBlockRes) -> gk_height t' = gk_height t - 1.
+Proof.
+  intros Hl. cbn [step]. change (last_hash (set_rpc_log t [])) with (last_hash t).
+  destruct (last_hash t) as [hash|]; [|contradiction].
+  unfold Consts.LISTENER_ORDER. cbn [run_listeners].
+  change (listener_disconnected hash (gk_height (set_rpc_log t [])) 0 (set_rpc_log t []))
+    with (gk_block_disconnected (set_rpc_log t []) (gk_height t)).
+  unfold gk_block_disconnected, u32_sub. destruct (N.leb 1 (gk_height t)); cbn [bind wrap]; [|intros H; inversion H].
+  match goal with |- context [listener_disconnected hash ?h 1 ?t1] =>
+    change (listener_disconnected hash h 1 t1) with (w_block_disconnected t1 hash h) end.
+  unfold w_block_disconnected, u32_sub. cbn [gk_height set_rpc_log].
+  destruct (N.leb 1 (gk_height t)); cbn [bind wrap]; intros H; inversion H. reflexivity.
+Qed.
+
+Lemma cfg_stable c : StableAll (fun t => cfg t = c).
+Proof.
+  constructor; [constructor; [constructor|]|..]; intros; try assumption.
+  - destruct H as [Hc _]. congruence.
+Qed.
+
+Lemma step_cfg le t o sc : not_abort (snd (step le t o sc)) -> cfg (fst (step le t o sc)) = cfg t.
+Proof. intros H. apply (step_pres (fun t' => cfg t' = cfg t) (cfg_stable (cfg t)) le t o sc eq_refl H). Qed.
